@@ -67,7 +67,7 @@ impl VehicleParameters {
                 ))
             })?;
 
-        let number_of_axles = vehicle_params
+        let number_of_axles_u64 = vehicle_params
             .get("number_of_axles")
             .ok_or_else(|| {
                 FrontierModelError::BuildError(
@@ -79,7 +79,13 @@ impl VehicleParameters {
                 FrontierModelError::BuildError(
                     "Unable to interpret `number_of_axles` parameter as an integer".to_string(),
                 )
-            })? as u8;
+            })?;
+        let number_of_axles = u8::try_from(number_of_axles_u64).map_err(|_| {
+            FrontierModelError::BuildError(format!(
+                "Unable to interpret `number_of_axles` parameter: {} is out of range",
+                number_of_axles_u64
+            ))
+        })?;
 
         let params = VehicleParameters {
             height,
